@@ -377,6 +377,24 @@ func (t *Teamserver) ListenerServiceExc2Add(Name, ExEndpoint string, client *ser
 	return nil
 }
 
+// ListenerServiceExc2RemoveAll
+// removes every external c2 listener (and its endpoint) that has been started by the given service connection.
+func (t *Teamserver) ListenerServiceExc2RemoveAll(client *service.ClientService) {
+	var Listeners []*Listener
+
+	for _, listener := range t.Listeners {
+		if ExtConfig, ok := listener.Config.(*handlers.External); ok && ExtConfig.Data != nil {
+			if owner, ok := ExtConfig.Data["client"].(*service.ClientService); ok && owner == client {
+				t.EndpointRemove(ExtConfig.Config.Endpoint)
+				continue
+			}
+		}
+		Listeners = append(Listeners, listener)
+	}
+
+	t.Listeners = Listeners
+}
+
 // ListenerStartNotify
 // Notifies the clients of a new listener that is available to use.
 func (t *Teamserver) ListenerStartNotify(Listener map[string]any) {
